@@ -5,7 +5,9 @@ iter_recording_ids and through find_matching_recording_ids.
 Fakes only at the process boundary: boto3 (fake_s3), the clock (fake_s3.CLOCK), uuid.uuid1 (the hex text
 comes from the case, so that ids and bucket key order are reproducible), and - for `random: 2` - the
 RNG (shuffle = reverse, random.choice = scripted index).  Ids are reported as ordinals (index of the
-recording's first save in the history), never as text."""
+recording's first save in the history), never as text.  A case may also hold saves that FAIL part-way on S3
+("failed": the fake bucket refuses the n-th mutation of that save); a recording none of whose saves succeeded has an
+ordinal >= 4500."""
 import atexit
 import copy
 import datetime
@@ -67,9 +69,13 @@ def meta_of(items):
     return {k: to_py(v) for k, v in items}
 
 
-def populated(hist, kp, decoys=None):
+FAILED_BASE = 4500     # ordinals of recordings whose every save failed (never stored: no index in the history of saves)
+
+
+def populated(hist, kp, decoys=None, failed=None):
     decoys = DECOYS.get(kp, []) if decoys is None else decoys
-    key = json.dumps([hist, kp, decoys], sort_keys=True)
+    failed = failed or []
+    key = json.dumps([hist, kp, decoys, failed], sort_keys=True)
     if key in _cache:
         return _cache[key]
     if len(_cache) > 6:
@@ -87,7 +93,52 @@ def populated(hist, kp, decoys=None):
     ids = {"mem": {}, "file": {}, "s3": {}}       # id text -> ordinal
     by_uuid = {}                                   # uuid -> (ordinal, {cassette: id})
     files = {}                                     # file name -> ordinal
+    first_clean = {}
     for i, e in enumerate(hist):
+        first_clean.setdefault(e["uuid"], i)
+    failed_res = []
+
+    def failing_save(j, f):
+        """a save that fails part-way ON S3: the bucket refuses mutation number f["crash"] of this save (0 = the first
+        put, 1 = the second) and every later one, or ("only") just that one; save_recording raises, so the recording is not saved - nothing is stored on the other
+        cassettes either.  The recording is created on all three (the ids exist, they may just never be listed)."""
+        o = first_clean.get(f["uuid"], FAILED_BASE + min(k for k, g in enumerate(failed) if g["uuid"] == f["uuid"]))
+        if f["uuid"] not in by_uuid:
+            fake_s3.CLOCK.set(at(f["ct"]))
+            made = {}
+            for name, c in cas.items():
+                _next_hex[0] = f["uuid"]
+                try:
+                    rec = c.create_new_recording(f["cat"])
+                finally:
+                    _next_hex[0] = None
+                made[name] = rec
+                ids[name][rec.id] = o
+            by_uuid[f["uuid"]] = (o, {n: r.id for n, r in made.items()})
+            r = made["s3"]
+        else:
+            r = MemoryRecording(by_uuid[f["uuid"]][1]["s3"])
+        fake_s3.CLOCK.set(at(f["t"]))
+        r.set_data('k', o)
+        r.add_metadata(meta_of(f["meta"]))
+        store = fake_s3.store(bucket)
+        if f.get("only"):
+            store.refuse_nth = f["crash"]        # only that one request is refused (size cap, throttling); later ones pass
+        else:
+            store.crash_after = len(store.log) + f["crash"]     # nothing gets through from that request on
+        try:
+            cas["s3"].save_recording(r)
+            failed_res.append("ok")
+        except Exception as ex:
+            failed_res.append(type(ex).__name__)
+        finally:
+            store.crash_after = None
+            store.refuse_nth = None
+
+    for i, e in enumerate(hist):
+        for j, f in enumerate(failed):
+            if f["after"] == i:
+                failing_save(j, f)
         if e["uuid"] not in by_uuid:
             made = {}
             fake_s3.CLOCK.set(at(e["ct"]))
@@ -99,7 +150,7 @@ def populated(hist, kp, decoys=None):
                     _next_hex[0] = None
                 made[name] = rec
                 ids[name][rec.id] = i
-            by_uuid[e["uuid"]] = (i, {n: r.id for n, r in made.items()})
+            by_uuid[e["uuid"]] = (first_clean[e["uuid"]], {n: r.id for n, r in made.items()})
             recs = made
         else:
             _, idmap = by_uuid[e["uuid"]]
@@ -114,6 +165,9 @@ def populated(hist, kp, decoys=None):
             c.save_recording(r)
         for fn in set(os.listdir(d)) - before:
             files[fn] = o
+    for j, f in enumerate(failed):
+        if f["after"] >= len(hist):
+            failing_save(j, f)
     # decoys: sibling key prefixes in the same bucket must never be listed
     for dk in decoys:
         dc = s3c.S3TapeCassette(bucket, key_prefix=dk, read_only=False)
@@ -123,7 +177,7 @@ def populated(hist, kp, decoys=None):
             r.set_data('k', -1)
             r.add_metadata(meta_of(e["meta"]))
             dc.save_recording(r)
-    st = {"cas": cas, "ids": ids, "files": files, "dir": d, "s3c": s3c}
+    st = {"cas": cas, "ids": ids, "files": files, "dir": d, "s3c": s3c, "failed_res": failed_res}
     _cache[key] = st
     return st
 
@@ -207,9 +261,11 @@ def listing(st, name, case):
 def run_lookup(case):
     if case.get("kind") == "cat":
         return run_cat(case)
-    st = populated(case["hist"], case["kp"], case.get("decoys"))
+    st = populated(case["hist"], case["kp"], case.get("decoys"), case.get("failed"))
     names = os.listdir(st["dir"])
     obs = {"listdir": [st["files"].get(n, -1) for n in names]}
+    if case.get("failed"):
+        obs["failed_saves"] = st["failed_res"]
     for name in ("mem", "file", "s3"):
         obs[name] = listing(st, name, case)
     return obs
